@@ -428,7 +428,64 @@ func symIntModeBinop(fr *frame, op token.Token, k types.BasicKind, x, y value) v
 	panic(pathEnd{status: stUnsupported, detail: "int-mode operator " + op.String()})
 }
 
+// infSign returns +1 / -1 when v is a concrete infinity.
+func infSign(v value) int {
+	var f float64
+	switch v := v.(type) {
+	case float32:
+		f = float64(v)
+	case float64:
+		f = v
+	default:
+		return 0
+	}
+	if math.IsInf(f, 1) {
+		return 1
+	}
+	if math.IsInf(f, -1) {
+		return -1
+	}
+	return 0
+}
+
 func symFloatBinop(fr *frame, op token.Token, k types.BasicKind, x, y value) value {
+	// comparisons of a (finite) symbolic real with a concrete infinity are decided directly
+	if sx, sy := infSign(x), infSign(y); sx != 0 || sy != 0 {
+		lt := (sy > 0 && sx == 0) || (sx < 0 && sy == 0) // x < y
+		gt := (sy < 0 && sx == 0) || (sx > 0 && sy == 0) // x > y
+		switch op {
+		case token.LSS:
+			return lt
+		case token.LEQ:
+			return lt
+		case token.GTR:
+			return gt
+		case token.GEQ:
+			return gt
+		case token.EQL:
+			return false
+		case token.NEQ:
+			return true
+		case token.ADD:
+			// infinity plus a finite real
+			if sx != 0 && sy == 0 {
+				return x
+			}
+			if sy != 0 && sx == 0 {
+				return y
+			}
+		case token.SUB:
+			if sx != 0 && sy == 0 {
+				return x
+			}
+			if sy != 0 && sx == 0 {
+				if k == types.Float32 {
+					return float32(math.Inf(-sy))
+				}
+				return math.Inf(-sy)
+			}
+		}
+	}
 	a, b := termOf(x, false), termOf(y, false)
 	switch op {
 	case token.ADD:
